@@ -103,7 +103,8 @@ static std::vector<Op> buildAlphabet(const std::string& name, Limits& L, const s
         A.push_back(opColPoint("ok", 1, L)); A.push_back(opColAnalog("ok", 1, L));
         A.push_back(opReload());
     } else if (name == "build") {   // C01 / C03 / C14: construction histories
-        L.maxFrames = thorough ? 3 : 2; L.maxPoints = 3; L.maxChans = 2; L.maxGroups = 5; L.maxParamsPerGroup = 11; L.noColumnsOnGaps = true;
+        g_conformingCallsOnly = true;
+        L.maxFrames = 3; L.maxPoints = 3; L.maxChans = 2; L.maxGroups = 5; L.maxParamsPerGroup = 11; L.noColumnsOnGaps = true;
         for (auto n : {"A", "B", "C"}) A.push_back(opPoint(n, L));
         for (auto n : {"a", "b"}) A.push_back(opAnalog(n, L));
         for (float r : {50.f, 100.f}) A.push_back(opRate("POINT", r, L));
